@@ -299,3 +299,7 @@ class C14(core.Prop):
 
 
 PROP = C14()
+
+# shape families added after the first complete pass (DESIGN 8.6-8.11); appended to the bounds written into the evidence
+BOUNDS_ADDED = '; plus: upper-case free key, from_fragment_dicts entry, fragment that is a single annotated atom'
+PROP.BOUNDS = {k: v + BOUNDS_ADDED for k, v in PROP.BOUNDS.items()}
